@@ -107,14 +107,28 @@ def run_reconciled(case):
             if abs(a - b) > 1e-9:
                 vs.append(V("reconciled-object-differs-from-fresh", f"{case['inter']} reconcile[{g}] path {case['path']}: {key} baseline {old.baseline!r}->{co.baseline!r}: coverage {dict(zip(nm, c))} gives {a!r}, an object built from the same visible data gives {b!r}", None))
                 break
-    if not moved:
-        from mc.runner import HarnessError
-
-        raise HarnessError(f"reconcile[{g}] along {case['path']} moved nothing")
-    return dict(states=states, transitions=1, traces=states, nontrivial=True, violations=vs[:3], counters=dict(reconciled_sets=1))
+    # a reconciliation that moved nothing exercises nothing (counted as a trivial case: the runner's vacuity guard looks at the total)
+    return dict(states=states, transitions=1, traces=states, nontrivial=bool(moved), violations=vs[:3], counters=dict(reconciled_sets=1, reconciled_sets_moved=int(bool(moved))))
 
 
 def run_edits(case):
+    out = _run_edits(case, None)
+    if not out["violations"]:
+        # the same histories with ONE coverage vector evaluated before the first edit and straight after every edit (the situation of a model that
+        # asks for the same coverage at every step while the outcomes are being revised): every grid point in turn
+        n = case["n"]
+        g = [0.0, 0.5, 1.0] if n == 3 else [0.0, 0.25, 0.5, 0.75, 1.0]
+        for c in itertools.product(g, repeat=n):
+            o2 = _run_edits(case, c)
+            out["states"] += o2["states"]
+            out["traces"] += o2["states"]
+            if o2["violations"]:
+                out["violations"] = o2["violations"]
+                break
+    return out
+
+
+def _run_edits(case, pinned):
     n, inter = case["n"], case["inter"]
     nm = names(n)
     start = [BASE + 0.9, BASE + 0.5, BASE - 0.3][:n]
@@ -126,6 +140,8 @@ def run_edits(case):
     vs = []
     states = 0
     g = [0.0, 0.5, 1.0] if n == 3 else [0.0, 0.25, 0.5, 0.75, 1.0]
+    if pinned is not None:
+        co.get_outcome(cv(nm, pinned))
     for op, k, v in case["hist"]:
         if op == "out":
             co.progs[nm[k]] = v
@@ -144,11 +160,11 @@ def run_edits(case):
             np.random.seed(0)
             co.sample()
         fresh = at.Covout("par", "pop", dict(progs), cov_interaction=inter, imp_interaction=imp, baseline=base, uncertainty=0.0)
-        for c in itertools.product(g, repeat=n):
+        for c in itertools.product(g, repeat=n) if pinned is None else [pinned]:
             states += 1
             a, b = float(co.get_outcome(cv(nm, c))), float(fresh.get_outcome(cv(nm, c)))
             if abs(a - b) > 1e-9:
-                vs.append(V("edited-object-differs-from-fresh", f"n={n} {inter} after {case['hist']}: coverage {dict(zip(nm, c))} gives {a!r} but an object built from the same visible data gives {b!r}", None))
+                vs.append(V("edited-object-differs-from-fresh", f"n={n} {inter} after {case['hist']}{' (same coverage evaluated before every edit)' if pinned is not None else ''}: coverage {dict(zip(nm, c))} gives {a!r} but an object built from the same visible data gives {b!r}", None))
                 break
         if vs:
             break
